@@ -24,6 +24,10 @@ CLAIMS = {
     text='Lean 4 theorem admit_iff (handler runs iff the Authorization value is "Basic " + canonical base64 of user:password of a configured pair) with the base64 round trip and canonicity proved; differential run of an application guarded by the real fang (single and array forms) against the model and against Python base64',
     note=TB + 'modelled not verified: base64 0.22 STANDARD engine (hand model, canonical decoding; validated against Python base64 and the crate), from_utf8',
     technique='Lean 4 proof (iff via base64 canonicity) + model/implementation correspondence'),
+ 'C17': dict(
+    text='Lean 4 theorem stream_delivers_all (for every completing producer schedule the stream yields exactly all pushes in order: none lost when the producer completes with a non-empty queue, none duplicated) plus framing lemmas (zero-chunk termination, no empty data chunk, no CR survives normalisation); differential run of a real DataStream handler driven by scripted schedules against the model, and of the wire bytes against an RFC 9112 de-chunker and the WHATWG event-stream parser',
+    note=TB + 'modelled not verified: the executor and wakers (one poll = one schedule step), the self-referential queue pointer; the end-to-end statement wire_decodes (parser after de-chunker = messages) is checked by the independent parser on every run, its Lean proof is in progress',
+    technique='Lean 4 proof (induction over poll schedules) + model/implementation correspondence'),
  'C20': dict(
     text='Lean 4 theorems for every timestamp <= 9999-12-31T23:59:59 and every usize (imf_fixdate_exact, itoa_exact, hexized_exact) about definitions TRANSLATED from time.rs / num.rs on every run; differential run of the real functions against the model and against an independent calendar over every 7th day (quick) or every day number (thorough)',
     note=TB + 'the rendering sequence of into_imf_fixdate is a hand model (validated on every day number in the thorough tier)',
